@@ -75,7 +75,11 @@ type c14cliReplay struct {
 // c14cliBuild rewrites and builds the instrumented tool.
 func c14cliBuild(dir string) (string, []string, error) {
 	harness := filepath.Join(run.VerifDir, "harness")
-	ov, notes, err := instr.BuildCLIOverlay("/repo", harness, dir)
+	repo := "/repo"
+	if r := os.Getenv("XV_REPO"); r != "" {
+		repo = r // a snapshot of the repository (used for long background runs)
+	}
+	ov, notes, err := instr.BuildCLIOverlay(repo, harness, dir)
 	if err != nil {
 		return "", nil, err
 	}
